@@ -93,14 +93,19 @@ Proof. unfold write_items. rewrite write_items_from. reflexivity. Qed.
 Definition good_v1 (bs : list N) : Prop := 0 < lenN bs < 4294967296.
 Definition good_v0 (bs : list N) : Prop := 0 < lenN bs < 65536.
 
+(** how a read ends at the end marker: the marker must be the last thing in the file *)
+Definition after_marker (tail : list N) : rend :=
+  match tail with [] => RTerm | _ :: _ => RErr ECorrupt end.
+
 Lemma read_all_fuel_v1 items : forall fuel acc ck tail,
   Forall good_v1 items -> (length items < fuel)%nat ->
   read_all_fuel crc fuel 1 (concat (map encode_item items) ++ be32 0 ++ tail) acc ck =
-  (rev acc ++ items, fold_left (fun c bs => N.lxor c (item_ck crc bs)) items ck, RTerm).
+  (rev acc ++ items, fold_left (fun c bs => N.lxor c (item_ck crc bs)) items ck, after_marker tail).
 Proof.
   induction items as [|bs items IH]; intros fuel acc ck tail HF Hfuel.
   - destruct fuel as [|f]; [cbn in Hfuel; lia|].
-    cbn [map concat app read_all_fuel]. rewrite decode_term_v1, app_nil_r. reflexivity.
+    cbn [map concat app read_all_fuel]. rewrite decode_term_v1, app_nil_r.
+    destruct tail; reflexivity.
   - destruct fuel as [|f]; [cbn in Hfuel; lia|].
     inversion HF as [|? ? Hb HF']; subst.
     cbn [map concat read_all_fuel]. rewrite <- app_assoc.
@@ -112,11 +117,12 @@ Qed.
 Lemma read_all_fuel_v0 items : forall fuel acc ck tail,
   Forall good_v0 items -> (length items < fuel)%nat ->
   read_all_fuel crc fuel 0 (concat (map encode_item_v0 items) ++ be16 0 ++ tail) acc ck =
-  (rev acc ++ items, fold_left (fun c bs => N.lxor c (item_ck_v0 crc bs)) items ck, RTerm).
+  (rev acc ++ items, fold_left (fun c bs => N.lxor c (item_ck_v0 crc bs)) items ck, after_marker tail).
 Proof.
   induction items as [|bs items IH]; intros fuel acc ck tail HF Hfuel.
   - destruct fuel as [|f]; [cbn in Hfuel; lia|].
-    cbn [map concat app read_all_fuel]. rewrite decode_term_v0, app_nil_r. reflexivity.
+    cbn [map concat app read_all_fuel]. rewrite decode_term_v0, app_nil_r.
+    destruct tail; reflexivity.
   - destruct fuel as [|f]; [cbn in Hfuel; lia|].
     inversion HF as [|? ? Hb HF']; subst.
     cbn [map concat read_all_fuel]. rewrite <- app_assoc.
@@ -163,10 +169,12 @@ Proof.
   pose proof (concat_encode_len_v0 items HF). rewrite !app_length. cbn. lia.
 Qed.
 
-(** trailing bytes after the terminator are never looked at *)
+(** trailing bytes after the terminator: every item is still delivered, but the read ends with the
+    error ECorrupt instead of the normal end (file.go ReadItem after the repair) *)
 Theorem frame_roundtrip_v1_tail items tail :
   Forall good_v1 items ->
-  read_all crc 1 (file_of crc items ++ tail) = (items, w_ck (write_items crc items), RTerm).
+  read_all crc 1 (file_of crc items ++ tail) =
+  (items, w_ck (write_items crc items), after_marker tail).
 Proof.
   intros HF. unfold read_all. rewrite file_of_eq, writer_ck_eq, <- app_assoc.
   rewrite read_all_fuel_v1; [reflexivity|exact HF|].
@@ -193,7 +201,129 @@ Lemma close_ck items :
   N.lxor (w_ck (write_items crc items)) (item_ck crc []).
 Proof. reflexivity. Qed.
 
+(** ** the end marker must be last (file.go ReadItem after the repair) *)
+
+Lemma be_val_zero_from l : forall a,
+  fold_left (fun acc b => acc * 256 + b) l a = 0 -> a = 0 /\ l = repeat 0 (length l).
+Proof.
+  induction l as [|b l IH]; intros a H; cbn [fold_left length repeat] in *; [auto|].
+  apply IH in H. destruct H as [H1 H2]. split; [lia|]. f_equal; [lia|exact H2].
+Qed.
+
+Lemma decode_item_DItem ver s bs c rest : decode_item crc ver s = DItem bs c rest ->
+  exists h, length h = hdr_len ver /\ s = h ++ bs ++ rest.
+Proof.
+  unfold decode_item. intros H.
+  destruct (Nat.ltb_spec (length s) (hdr_len ver)) as [Hl|Hl]; [discriminate|].
+  destruct (be_val (firstn (hdr_len ver) s) =? 0); [discriminate|].
+  destruct (lenN (skipn (hdr_len ver) s) <? be_val (firstn (hdr_len ver) s)); [discriminate|].
+  inversion H; subst. exists (firstn (hdr_len ver) s). split.
+  - apply firstn_length_le. exact Hl.
+  - rewrite !firstn_skipn. reflexivity.
+Qed.
+
+Lemma decode_item_DTerm ver s rest : decode_item crc ver s = DTerm rest ->
+  s = repeat 0 (hdr_len ver) ++ rest.
+Proof.
+  unfold decode_item. intros H.
+  destruct (Nat.ltb_spec (length s) (hdr_len ver)) as [Hl|Hl]; [discriminate|].
+  destruct (N.eqb_spec (be_val (firstn (hdr_len ver) s)) 0) as [E|E].
+  - inversion H; subst. apply be_val_zero_from in E. destruct E as [_ E].
+    rewrite firstn_length_le in E by exact Hl.
+    rewrite <- E. symmetry. apply firstn_skipn.
+  - destruct (lenN (skipn (hdr_len ver) s) <? be_val (firstn (hdr_len ver) s)); discriminate.
+Qed.
+
+(** total size of the frames of a list of items *)
+Definition frames_len (ver : N) (items : list (list N)) : nat :=
+  list_sum (map (fun bs => (hdr_len ver + length bs)%nat) items).
+
+Lemma read_all_fuel_term ver : forall fuel s acc ck items ck',
+  read_all_fuel crc fuel ver s acc ck = (items, ck', RTerm) ->
+  exists its pre, items = rev acc ++ its /\ s = pre ++ repeat 0 (hdr_len ver) /\
+                  length pre = frames_len ver its.
+Proof.
+  induction fuel as [|f IH]; intros s acc ck items ck' H; cbn [read_all_fuel] in H; [discriminate|].
+  destruct (decode_item crc ver s) as [bs c rest|rest|e c] eqn:E.
+  - apply IH in H. destruct H as (its & pre & Hi & Hs & Hl).
+    apply decode_item_DItem in E. destruct E as (h & Hh & Es).
+    exists (bs :: its), (h ++ bs ++ pre). repeat split.
+    + rewrite Hi. cbn [rev]. rewrite <- app_assoc. reflexivity.
+    + rewrite Es, Hs, <- !app_assoc. reflexivity.
+    + rewrite !app_length, Hl, Hh. unfold frames_len. cbn [map list_sum fold_right]. fold (list_sum (map (fun bs0 : list N => (hdr_len ver + length bs0)%nat) its)). lia.
+  - apply decode_item_DTerm in E. destruct rest as [|b rest]; [|discriminate].
+    inversion H; subst. exists [], []. repeat split.
+    + rewrite app_nil_r. reflexivity.
+    + rewrite app_nil_r. reflexivity.
+  - discriminate.
+Qed.
+
+(** a successful read consumed the whole input: the file is exactly the frames of the items that
+    were delivered followed by the end marker, and nothing else *)
+Lemma read_all_marker_not_last : forall ver s items ck,
+  read_all crc ver s = (items, ck, RTerm) ->
+  exists pre, s = pre ++ repeat 0 (hdr_len ver) /\ length pre = frames_len ver items.
+Proof.
+  intros ver s items ck H. unfold read_all in H. apply read_all_fuel_term in H.
+  destruct H as (its & pre & Hi & Hs & Hl). cbn [rev app] in Hi. subst its. eauto.
+Qed.
+
+(** overwrite the 4 bytes at offset [off] with zeros *)
+Definition zero4_at (off : nat) (s : list N) : list N :=
+  firstn off s ++ be32 0 ++ skipn (off + 4) s.
+
+Lemma file_of_split pre x post :
+  file_of crc (pre ++ x :: post) =
+  concat (map encode_item pre) ++ be32 (lenN x) ++ x ++ concat (map encode_item post) ++ be32 0.
+Proof.
+  rewrite file_of_eq, map_app, concat_app. cbn [map concat]. unfold encode_item at 2.
+  rewrite <- !app_assoc. reflexivity.
+Qed.
+
+(** the file of [pre ++ x :: post] with the four length bytes of [x] replaced by zeros *)
+Lemma zero4_at_file pre x post :
+  zero4_at (length (concat (map encode_item pre))) (file_of crc (pre ++ x :: post)) =
+  concat (map encode_item pre) ++ be32 0 ++ x ++ concat (map encode_item post) ++ be32 0.
+Proof.
+  rewrite file_of_split. unfold zero4_at. rewrite firstn_app_exact. do 2 f_equal.
+  rewrite skipn_app, skipn_all2 by lia.
+  replace (length (concat (map encode_item pre)) + 4 - length (concat (map encode_item pre)))%nat
+    with 4%nat by lia.
+  reflexivity.
+Qed.
+
+(** a length prefix damaged to zero looks like an end marker in the middle of the file; the reader
+    delivers the items before it and then reports ECorrupt — never a normal end with fewer items *)
+Theorem zeroed_length_detected pre x post :
+  Forall good_v1 (pre ++ x :: post) ->
+  read_all crc 1 (zero4_at (length (concat (map encode_item pre))) (file_of crc (pre ++ x :: post)))
+  = (pre, items_ck pre, RErr ECorrupt).
+Proof.
+  intros HF. rewrite zero4_at_file. apply Forall_app in HF. destruct HF as [Hpre Hx].
+  inversion Hx as [|? ? Hgx _]; subst. unfold read_all.
+  rewrite read_all_fuel_v1; [|exact Hpre|].
+  - destruct x as [|b x]; [unfold good_v1, lenN in Hgx; cbn in Hgx; lia|]. reflexivity.
+  - pose proof (concat_encode_len pre Hpre). rewrite !app_length. lia.
+Qed.
+
+(** the same by position: record [k] of the file of [items] *)
+Corollary zeroed_length_detected_nth items k :
+  Forall good_v1 items -> (k < length items)%nat ->
+  read_all crc 1 (zero4_at (length (concat (map encode_item (firstn k items)))) (file_of crc items))
+  = (firstn k items, items_ck (firstn k items), RErr ECorrupt).
+Proof.
+  intros HF Hk. pose proof (firstn_skipn k items) as E.
+  destruct (skipn k items) as [|x post] eqn:Es.
+  - apply (f_equal (@length _)) in Es. rewrite skipn_length in Es. cbn in Es. lia.
+  - rewrite <- E at 2. rewrite <- E in HF. apply zeroed_length_detected. exact HF.
+Qed.
+
 End FrameProofs.
+
+Print Assumptions read_all_marker_not_last.
+Print Assumptions zeroed_length_detected.
+Print Assumptions zeroed_length_detected_nth.
+Print Assumptions frame_roundtrip_v1_tail.
 
 (** bytes.Compare is a total order *)
 Lemma bytes_cmp_refl a : bytes_cmp a a = Eq.
